@@ -1,10 +1,10 @@
 package props
 
 import (
-	"runtime"
 	"encoding/hex"
 	"encoding/json"
 	"fmt"
+	"runtime"
 	"strings"
 
 	"verif/harness/mc"
